@@ -23,6 +23,10 @@ CHECKS = {
             "exhaustive crash-point x persistence-outcome enumeration over the strace mutation log, recovery by the real Config::open",
             "One traced run per history yields every create/write/truncate/fsync/rename/unlink/mkdir; after each of them every crash image a POSIX file system may leave (per directory every subset of unsynced entry operations, per file every unsynced write boundary and a torn last write; strict POSIX and ext4-like fsync semantics) is built, de-duplicated, and recovered in a worker process: it must open, read as the state before or after the interrupted op (exactly the state after it once the op had returned), and accept a write, flush and major compaction.",
             "6.1, 7 C05", "Trusted base: the file-system model (engine/src/crash.rs), self-checked per history by replaying the whole log and comparing with the real directory; strace; the tree directory's own entry in its parent is assumed durable."),
+    "C06": ("sched", "model_checking",
+            "stateless exploration of thread schedules of the real tree under a controlled scheduler (lock-acquisition scheduling points, real-lock probing), iterative preemption bounding",
+            "Scenarios of 3-5 real threads (writer, rotator/flusher, leveled / major compaction, drop_range, readers) on a preloaded multi-level tree are executed under every schedule with at most 2 (quick) / 3 (thorough) preemptions: every read and scan at a snapshot the writer has published equals the model of the writer's log, no call errs or panics, no deadlock, all acknowledged writes are present at the end, nothing stays hidden, every version in the history passes the C07 audit, and the tree reopens to exactly the flushed state.",
+            "4, 7 C06", "Trusted base: the scheduler (engine/src/sched.rs) and the add-only hook lines before each lock acquisition; sequentially consistent interleavings at those points only; replay of every reported schedule must reproduce it twice."),
     "C07": ("hx", "model_checking",
             "bounded exhaustive exploration of histories with a structural audit of every published version",
             "After every step of every explored history the current version is audited: runs ascending and pairwise disjoint by actual contents and by metadata, read-order precedence of sequence numbers between tables sharing a key, metadata (key range, seqno range, item/tombstone/weak-tombstone counts) equal to a full scan, files exist, and the v<id> file decoded by an independent decoder (plus `current`) equals the published structure.",
@@ -84,7 +88,7 @@ CHECKS = {
 NOT_YET = {
     "_C03": "check not built yet (hx stage 2: range bounds x next/next_back interleavings) - in progress",
     "_C05": "check not built yet (crash engine) - in progress",
-    "C06": "check not built yet (sched engine) - in progress",
+    "_C06": "check not built yet (sched engine) - in progress",
     "_C08": "check not built yet (hx differential blob vs standard) - in progress",
     "_C09": "check not built yet (hx blob gc accounting oracle) - in progress",
     "_C10": "check not built yet (corrupt engine) - in progress",
